@@ -293,12 +293,17 @@ def check(repo, rep, tier):
     from ..lints import r_serialisation_complete
     r_serialisation_complete(repo, rep, 'R11.3', [('depccg/tree.py', 'Tree')],
                              'with more than one worker process the trees come back through pickle and differ from those of a single-process run')
+    # categories, the seen-rule set and the unary table travel to the workers through pickle: a hash kept on the instance
+    # travels with them and is wrong under the worker's hash seed (every lookup misses) -- the hash is the generated one
+    from . import c13
+    c13.r_dataclass(repo.module('depccg/cat.py'), rep, 'R11.3')
     ti = rp.r_category_table(repo, rep, 'R11.5')
     rp.r_call_locals(repo, rep, 'R11.5')
     if ti:
         rp.r_callbacks(repo, rep, 'R11.5')
         rp.r_sentence_loop(repo, rep, 'R11.4', ti)
     r_state(repo, rep)
+    rp.r_kwargs_not_captured(repo, rep, 'R11.4')     # 'too long' is decided from the max_length the caller passed
     m = ParseModel(repo)
     rc.r_cache(m, rep, 'R11.5')
     rc.r_priority(m, rep, 'R11.5')
